@@ -317,6 +317,60 @@ def rule_own(c, prog):
         c.violation(R, "migration-closure|fallback", f"the per-value migration no longer maps Ok(new) -> new and Err(_) -> the original value ({detail})", fn.sp, instance="migration-closure:fallback")
 
 
+def rule_scratch(c, prog, R="C08.scratch"):
+    """per-value scratch buffers in the encoder arms must not carry one value's bytes into the next"""
+    c.rule(R, "in serialize_properties a buffer that is filled per value (`x.to_writer(&mut buf)`, push/extend) and written per value (`chunk.write_*(&buf)`) inside a per-value loop is declared inside that loop or cleared there: a buffer hoisted out of the loop makes every later instance's blob start with the earlier instances' bytes")
+    fn = common.find_fn(prog, r"serializer::state::SerializerState.*::serialize_properties$")
+    n = 0
+    for lp_node in core.walk_fn(fn, into_closures=False):
+        fl = core.as_for(lp_node)
+        if fl is None or lp_node.get("k") == "DropTemps":
+            continue
+        body = fl[2]
+        declared = set()
+        for st in core.walk_lets(body):
+            stack = [st.get("pat")]
+            while stack:
+                x = stack.pop()
+                if isinstance(x, dict):
+                    if x.get("k") == "Binding":
+                        declared.add(x["lid"])
+                    stack.extend(v for v in x.values() if isinstance(v, (dict, list)))
+                elif isinstance(x, list):
+                    stack.extend(x)
+        filled, written, cleared = {}, {}, set()
+        for x in core.walk(body, into_closures=False):
+            if x.get("k") in ("MethodCall", "Call"):
+                args = core.call_args(x)
+                nm = (core.callee_generic(x) or "").rsplit("::", 1)[-1]
+                # &mut <local> handed to a callee, or a growing method on the local itself
+                for i, a in enumerate(args):
+                    a0 = a
+                    is_mut = a0.get("k") == "AddrOf" and a0.get("mut")
+                    base = core.strip(a0)
+                    if base.get("k") == "Path" and base.get("res") == "local" and base["lid"] not in declared and "alloc::vec::Vec<u8>" in ((base.get("ty") or "") + (a0.get("ty") or "")):
+                        if is_mut or (i == 0 and nm in ("push", "extend", "extend_from_slice", "append", "write_all", "resize")):
+                            if nm in ("clear", "truncate"):
+                                cleared.add(base["lid"])
+                            else:
+                                filled[base["lid"]] = (base.get("name"), x)
+                        elif i == 0 and nm in ("clear", "truncate"):
+                            cleared.add(base["lid"])
+                        elif nm.startswith("write_") and i >= 1:
+                            written[base["lid"]] = (base.get("name"), x)
+            if x.get("k") == "Assign" and core.strip(x["l"]).get("res") == "local":
+                cleared.add(core.strip(x["l"])["lid"])
+        for lid in set(filled) & set(written):
+            n += 1
+            inst = f"scratch:{filled[lid][0]}"
+            if lid in cleared:
+                c.ok(R, inst)
+            else:
+                c.violation(R, f"carried|{core.fingerprint(written[lid][1], 2).split('(')[0]}", f"serialize_properties fills `{filled[lid][0]}` and writes it once per value inside a loop, but the buffer is declared outside that loop and never cleared in it: the blob written for the k-th instance starts with the bytes of the k-1 instances before it (the reader decodes the first one again and ignores the rest)", core.loc(filled[lid][1]), instance=inst)
+    if n == 0:
+        c.ok(R, "no-carried-scratch-buffers")
+
+
 def rule_default(c, prog):
     R = "C08.default"
     c.rule(R, "a missing property is filled from database.find_default_property(class, canonical name), else from fallback_default_value(serialized type); never from another instance")
@@ -413,6 +467,7 @@ def run(c, prog):
     rule_own(c, prog)
     rule_default(c, prog)
     rule_col(c, prog)
+    rule_scratch(c, prog)
     from . import C07
     C07.run_sanitisers(core.Alias(c, "C08"), prog)   # SSTR indices vs chunk order: otherwise an instance shows another instance's SharedString
     c.not_decided += ["`succeeds whenever each instance serializes on its own` for every multiset (value-level type logic)"]
